@@ -19,21 +19,41 @@ Definition witness : list (event Z expr) :=
    PassBegin; PassRead 0%nat; PassRead 1%nat; PassEnd].                            (* p1 reads back 2; nothing depends on p1 *)
 
 Lemma C01_old_refuted_b :
-  match hrun false [0%nat; 1%nat] (init [Some 1; Some 1]) witness with
+  match hrun false true [0%nat; 1%nat] (init [Some 1; Some 1]) witness with
   | Some s => quiescent_b s && negb (follows_b s 1%nat)
   | None => false
   end = true.
 Proof. vm_compute. reflexivity. Qed.
 
 Lemma C01_old_refuted :
-  exists s, hrun false [0%nat; 1%nat] (init [Some 1; Some 1]) witness = Some s
+  exists s, hrun false true [0%nat; 1%nat] (init [Some 1; Some 1]) witness = Some s
             /\ quiescent_b s = true /\ follows_b s 1%nat = false.
 Proof.
   pose proof C01_old_refuted_b as H.
-  destruct (hrun false [0%nat; 1%nat] (init [Some 1; Some 1]) witness) as [s|]; [|discriminate].
+  destruct (hrun false true [0%nat; 1%nat] (init [Some 1; Some 1]) witness) as [s|]; [|discriminate].
   exists s. apply andb_true_iff in H. destruct H as [H1 H2]. apply negb_true_iff in H2. repeat split; assumption.
 Qed.
 
 (* the same trace is refused by the model of the fixed code: the evaluation task is still refreshing *)
-Lemma C01_witness_refused_when_fixed : hrun true [0%nat; 1%nat] (init [Some 1; Some 1]) witness = None.
+Lemma C01_witness_refused_when_fixed : hrun true true [0%nat; 1%nat] (init [Some 1; Some 1]) witness = None.
+Proof. vm_compute. reflexivity. Qed.
+
+(* enable() that does not force the evaluation of all expressions: s = ADD($p0, $p1); disable p0; p1: 1 -> 9; enable p0:
+   the expression of p2 is never evaluated again *)
+Definition e_add : expr := Call "ADD" [PortVal "p0"; PortVal "p1"].
+Definition witness_enable : list (event Z expr) :=
+  [SetExpr 2%nat e_add;
+   PassBegin; PassRead 0%nat; PassRead 1%nat; PassRead 2%nat; PassEnd; Eval 2%nat; WriteEnd 2%nat;
+   PassBegin; PassRead 0%nat; PassRead 1%nat; PassRead 2%nat; PassEnd;
+   Disable 0%nat;
+   SourceSet 1%nat (Some 9);
+   PassBegin; PassSkip 0%nat; PassRead 1%nat; PassRead 2%nat; PassEnd; Eval 2%nat;       (* $p0 is disabled: evaluation error *)
+   Enable 0%nat;
+   PassBegin; PassRead 0%nat; PassRead 1%nat; PassRead 2%nat; PassEnd].
+
+Lemma C01_enable_old_refuted_b :
+  match hrun true false [0%nat; 1%nat; 2%nat] (init [Some 5; Some 1; Some 0]) witness_enable with
+  | Some s => quiescent_b s && negb (follows_b s 2%nat)
+  | None => false
+  end = true.
 Proof. vm_compute. reflexivity. Qed.
